@@ -60,13 +60,13 @@ func (eng) Rule(mode string) string {
 	if mode == "slot" {
 		return "a real operator with 1..3 upstream source runners receives barriers of checkpoint a from a strict subset (possibly empty) of its runners, is deployed again (surviving worker), optionally receives stale barriers of a from a strict subset after the redeploy (known finding), then receives all barriers of checkpoint b; a retention update is sent before the first deploy; parking is observed at the operator.align.park hook, not by time-out; non-trivial: at least one barrier was registered before the second deploy"
 	}
-	return "histories over WorkerCount 1..3 with 0..2 standby nodes per kind: registrations in random order, heartbeats, graceful deregistration and kills (heartbeat expiry by advancing the frozen clock) of assembly members before / during deployment (Deploy gated) and during an in-flight checkpoint (some acks delivered) - periodic, a requested savepoint (HandleCreateSavepoint on an idle store) or a periodic checkpoint upgraded to a savepoint (request folding into it) -, failed deployments, checkpoint rounds with acks in random order, stale / foreign / duplicate acks. Non-trivial: at least one deployment completed and at least one fault or checkpoint happened; distinct by hash of the op list."
+	return "histories over WorkerCount 1..3 with 0..2 standby nodes per kind: registrations in random order, heartbeats, graceful deregistration and kills (heartbeat expiry by advancing the frozen clock) of assembly members before / during deployment (Deploy gated) and during an in-flight checkpoint (some acks delivered) - periodic, a requested savepoint (HandleCreateSavepoint on an idle store) or a periodic checkpoint upgraded to a savepoint (request folding into it) -, failed deployments, checkpoint rounds with acks in random order, late acks of members of the lost assembly while the new assembly's Deploy is still gated (single and all of them), stale / foreign / duplicate acks. Non-trivial: at least one deployment completed and at least one fault or checkpoint happened; distinct by hash of the op list."
 }
 
 // ---------------------------------------------------------------- ops (JSON, self-contained)
 
 type jop struct {
-	K   string `json:"k"`             // reg | dereg | deregm | killm | hb | adv | fin | tick | sp | ackm | ackn | ackall
+	K   string `json:"k"`             // reg | dereg | deregm | killm | hb | adv | fin | tick | sp | ackm | ackn | ackall | ackold | ackallold
 	Who string `json:"who,omitempty"` // "op" | "sr"
 	N   int    `json:"n,omitempty"`   // node number / member position / milliseconds / permutation seed
 	D   int    `json:"d,omitempty"`   // ack: checkpoint id = last started id + d
@@ -255,6 +255,8 @@ type harness struct {
 	pendingDeploy bool
 	memOps        []string // members of the last deployment seen (pending or running)
 	memSrs        []string
+	prevOps       []string // members of the assembly before that one
+	prevSrs       []string
 	lastCk        uint64          // last checkpoint id started
 	known         map[string]bool // nodes the harness registered and neither deregistered nor killed
 }
@@ -361,7 +363,12 @@ done:
 			}
 		}
 	}
-	h.memOps, h.memSrs = dedup(opIDs), dedup(srIDs)
+	if no, nr := dedup(opIDs), dedup(srIDs); strings.Join(no, ",") != strings.Join(h.memOps, ",") || strings.Join(nr, ",") != strings.Join(h.memSrs, ",") {
+		if len(h.memOps)+len(h.memSrs) > 0 {
+			h.prevOps, h.prevSrs = h.memOps, h.memSrs // the assembly that was lost
+		}
+		h.memOps, h.memSrs = no, nr
+	}
 	return rec
 }
 
@@ -458,7 +465,23 @@ func (h *harness) posOf(id string) int {
 			return i
 		}
 	}
+	for i, x := range h.prevOps {
+		if x == id {
+			return i
+		}
+	}
 	return 0
+}
+
+func (h *harness) oldMember(who string, pos int) (string, bool) {
+	m := h.prevSrs
+	if who == "op" {
+		m = h.prevOps
+	}
+	if len(m) == 0 {
+		return "", false
+	}
+	return m[pos%len(m)], true
 }
 
 // prim executes one primitive op and returns its Gallina term and observation.
@@ -712,6 +735,23 @@ func (h *harness) run(ops []jop) []step {
 			if id, ok := h.member(op.Who, op.N); ok {
 				out = append(out, h.ack(op.Who, id, h.ckID(op.D)))
 			}
+		case "ackold": // a late ack from a member of the assembly that was lost (slow / zombie worker)
+			if id, ok := h.oldMember(op.Who, op.N); ok {
+				out = append(out, h.ack(op.Who, id, h.ckID(op.D)))
+			}
+		case "ackallold":
+			type m struct{ who, id string }
+			var ms []m
+			for _, id := range h.prevOps {
+				ms = append(ms, m{"op", id})
+			}
+			for _, id := range h.prevSrs {
+				ms = append(ms, m{"sr", id})
+			}
+			hx.Shuffle(hx.NewRand(uint64(op.N)), ms)
+			for _, x := range ms {
+				out = append(out, h.ack(x.who, x.id, h.ckID(op.D)))
+			}
 		case "ackn":
 			out = append(out, h.ack(op.Who, nid(op.Who, op.N), h.ckID(op.D)))
 		case "ackall":
@@ -857,6 +897,12 @@ func (e eng) Execute(mode string, c *hx.Case) (*hx.Result, error) {
 		}
 		if s.o.Res == 1 {
 			tags["ack-rejected"] = true
+		}
+		if s.o.Status == 2 && strings.HasPrefix(s.op, "OAck") {
+			tags["ack-while-new-assembly-deploys"] = true
+			if pendingCk {
+				tags["late-ack-of-lost-assembly-while-deploying"] = true
+			}
 		}
 		if s.o.Res == 2 {
 			tags["ack-panicked"] = true
